@@ -4,6 +4,7 @@ TB_COMMON = [
     "Lean 4.33 kernel; axioms propext, Classical.choice, Quot.sound only (audited per theorem on every run)",
     "hand-written Lean model tied to /repo by the correspondence check (Rust harness, Lean driver, Python orchestration are trusted)",
     "tools/extract_facts.py (constants regenerated from the source on every run)",
+    "tools/translate_src.py (Rust-subset parser and Lean emitter) and Model/SrcPrelude.lean (Rust's derived Ord) for the functions translated from the source on every run: SyncOp::transform, SyncOp::from_op, Operation::get_uuid, Status::{from,to}_taskmap",
 ]
 TB_SYNC = TB_COMMON + [
     "Uuid::new_v4 freshness; the harness-side reference server (in-memory chain) is a correct ChainSpec",
@@ -70,7 +71,7 @@ HIST_T = {"cases": 8000, "max_len": 80}
 PROPS = {
     "C01": {
         "module": "TcVerif.Props.C01",
-        "theorems": ["Tc.C01_convergence", "Tc.C01_all_equal", "Tc.C01_replica_invariant",
+        "theorems": ["Tc.C01_source_transform_is_model", "Tc.C01_source_transform_diamond", "Tc.C01_convergence", "Tc.C01_all_equal", "Tc.C01_replica_invariant",
                      "Tc.C01_chain_valid", "Tc.C01_exec_reachable", "Tc.C01_needs_valid"],
         "leanchecker_modules": ["TcVerif.Proofs.Ot", "TcVerif.Proofs.SyncInv", "TcVerif.Proofs.SyncExec"],
         "runs": [
@@ -89,7 +90,7 @@ PROPS = {
     },
     "C02": {
         "module": "TcVerif.Props.C02",
-        "theorems": ["Tc.C02_no_out_of_sync", "Tc.C02_reject_is_never_fatal", "Tc.C02_convergence",
+        "theorems": ["Tc.C01_source_transform_is_model", "Tc.C02_no_out_of_sync", "Tc.C02_reject_is_never_fatal", "Tc.C02_convergence",
                      "Tc.C02_inflight_invariant", "Tc.C02_pending_changes", "Tc.C01_exec_reachable"],
         "leanchecker_modules": ["TcVerif.Proofs.SyncInv", "TcVerif.Proofs.SyncExec"],
         "runs": [
@@ -106,7 +107,7 @@ PROPS = {
     },
     "C04": {
         "module": "TcVerif.Props.C04",
-        "theorems": ["Tc.C04_abort_restores", "Tc.C04_invariant_always", "Tc.C04_self_cancel", "Tc.C04_pull_own_version",
+        "theorems": ["Tc.C01_source_transform_is_model", "Tc.C04_source_transform_self", "Tc.C04_abort_restores", "Tc.C04_invariant_always", "Tc.C04_self_cancel", "Tc.C04_pull_own_version",
                      "Tc.C04_repeat_converges", "Tc.C04_never_stuck", "Tc.C01_exec_reachable"],
         "leanchecker_modules": ["TcVerif.Proofs.Ot", "TcVerif.Proofs.SyncInv"],
         "runs": [
@@ -142,7 +143,7 @@ PROPS = {
     },
     "C03": {
         "module": "TcVerif.Props.C03",
-        "theorems": ["Tc.C03_transform_symm", "Tc.C03_order_independent₂", "Tc.merged_comm", "Tc.C03_later_update_wins",
+        "theorems": ["Tc.C01_source_transform_is_model", "Tc.C03_source_transform_symm", "Tc.C03_transform_symm", "Tc.C03_order_independent₂", "Tc.merged_comm", "Tc.C03_later_update_wins",
                      "Tc.C03_delete_beats_update", "Tc.C03_different_props_kept", "Tc.C03_different_tasks_kept",
                      "Tc.C03_concurrent_creates_merge", "Tc.C03_causal_override", "Tc.C03_dropped_only_by_rule",
                      "Tc.rebase_symm", "Tc.C01_exec_reachable"],
@@ -225,7 +226,7 @@ PROPS = {
     },
     "C16": {
         "module": "TcVerif.Props.C16",
-        "theorems": ["Tc.C16_abandon_invisible", "Tc.C16_commit_visible", "Tc.C16_readonly_refuses", "Tc.C16_readonly_reads",
+        "theorems": ["Tc.C16_source_get_uuid", "Tc.C16_abandon_invisible", "Tc.C16_commit_visible", "Tc.C16_readonly_refuses", "Tc.C16_readonly_reads",
                      "Tc.C16_rows_add_index", "Tc.C16_rows_add_vec", "Tc.C16_rows_set_vec"],
         "leanchecker_modules": [],
         "runs": [
@@ -281,7 +282,7 @@ PROPS = {
     },
     "C19": {
         "module": "TcVerif.Props.C19",
-        "theorems": ["Tc.C19_commit_matches_object", "Tc.setValue_faithful", "Tc.setStatus_faithful", "Tc.start_faithful", "Tc.dataUpdate_faithful",
+        "theorems": ["Tc.C19_source_status_roundtrip", "Tc.C19_source_status_known", "Tc.C19_commit_matches_object", "Tc.setValue_faithful", "Tc.setStatus_faithful", "Tc.start_faithful", "Tc.dataUpdate_faithful",
                      "Tc.C19_end_rule_close", "Tc.C19_end_rule_reopen", "Tc.C19_modified_once", "Tc.C19_reserved_rejected",
                      "Tc.C19_read_back", "Tc.C19_other_keys_kept", "Tc.C19_depmap_exact"],
         "leanchecker_modules": [],
@@ -410,7 +411,7 @@ PROPS = {
     },
     "C14": {
         "module": "TcVerif.Props.C14",
-        "theorems": ["Tc.C14_old_values_never_leave", "Tc.C14_nothing_but_sync_ops", "Tc.C14_every_change_sent", "Tc.C14_document_shape",
+        "theorems": ["Tc.C14_source_from_op", "Tc.C14_old_values_never_leave", "Tc.C14_nothing_but_sync_ops", "Tc.C14_every_change_sent", "Tc.C14_document_shape",
                      "Tc.C14_string_roundtrip", "Tc.C14_string_value_roundtrip", "Tc.parseBody_esc", "Tc.C14_uuid_roundtrip"],
         "leanchecker_modules": [],
         "runs": [
